@@ -504,6 +504,54 @@ def gen_reverse_template(rng, weak):
     return "\n".join(lines) + "\n", tags
 
 
+def gen_registry_template(rng, weak):
+    """the application registers, re-registers and unregisters security handlers (its own, incl. one of type
+    1 = "None", and the TightVNC extension) in random order - head, middle, tail, already linked, not
+    registered - while viewers connect and choose among those types"""
+    pw = rand_pw(rng) or b"x"
+    scr = [{"kind": "list", "pws": [pw], "fvo": 1}, {"kind": "none"}]
+    lines = [screen_line(i, s) for i, s in enumerate(scr)]
+    pool = rng.sample([1, 2, 5, 30, 77, 200, 255], rng.choice([2, 3, 4]))
+    tight = False
+    reg = []
+    cid = 0
+    tags = ["template-registry"]
+    ch = bytes(rng.randint(0, 255) for _ in range(16))
+    lines.append("rand " + hx(ch))
+    for _ in range(rng.choice([6, 9, 12, 16])):
+        k = rng.random()
+        if k < 0.18:
+            tight = not tight
+            lines.append("tight %d" % (1 if tight else 0))
+        elif k < 0.45:
+            t = rng.choice(pool)
+            lines.append("ext %d" % t)
+            if t not in reg:
+                reg.insert(0, t)
+        elif k < 0.70:
+            t = rng.choice(reg) if (reg and rng.random() < 0.8) else rng.choice(pool)
+            lines.append("unext %d" % t)
+            if t in reg:
+                reg.remove(t)
+        else:
+            sid = rng.choice([0, 0, 1])
+            v = rng.choice([b"RFB 003.007\n", b"RFB 003.008\n"])
+            lines.append("conn %d %d 0 %s" % (cid, sid, hx(v)))
+            c = rng.random()
+            if c < 0.5:
+                t = rng.choice(pool + [16])
+                lines.append("send %d %02x" % (cid, t))
+            elif c < 0.7 and sid == 0:
+                lines += ["send %d 02" % cid, "send %d %s" % (cid, hx(vnc_response(pw, ch))), "send %d 01" % cid]
+            elif c < 0.85:
+                lines.append("send %d 10000000%02x%s01" % (cid, rng.choice([2, 2, 1]), hx(vnc_response(pw, ch))))
+            cid += 1
+    lines.append("conn %d 0 0 %s" % (cid, hx(b"RFB 003.008\n")))
+    lines.append("send %d %02x" % (cid, rng.choice(pool + [16])))
+    lines.append("state")
+    return "\n".join(lines) + "\n", tags
+
+
 def gen_brute(rng, weak):
     """many failed attempts in one process, then more attempts (catches 'accept after N failures')"""
     pw = rand_pw(rng) or b"pw"
@@ -593,17 +641,19 @@ def oracle(script, impl):
         return None, stats        # crash / early exit is reported by the caller
     scr, conns = {}, {}
     cryptofail = False
-    registered = set()        # security types with a registered handler right now, per the script
+    reg_ext, reg_tight = set(), False     # handlers registered right now, per the script
+    registered = set()
     for op, ob in zip(ops, impl):
         t = op.split()
         if t[0] == "cryptofail" and t[1] == "1":
             cryptofail = True
         if ob == "ok" and t[0] == "ext":
-            registered.add(int(t[1]))
+            reg_ext.add(int(t[1]))
         if ob == "ok" and t[0] == "unext":
-            registered.discard(int(t[1]))
+            reg_ext.discard(int(t[1]))
         if ob == "ok" and t[0] == "tight":
-            (registered.add if t[1] == "1" else registered.discard)(16)
+            reg_tight = t[1] == "1"
+        registered = set(reg_ext) | ({16} if reg_tight else set())
         if t[0] == "screen" and ob == "ok":
             sid = int(t[1])
             if t[2] == "none":
@@ -903,7 +953,9 @@ def run(ctx):
                 s, tg = gen_bypass_template(ctx.rng, weak)
             elif r < 0.14:
                 s, tg = gen_reverse_template(ctx.rng, weak)
-            elif r < 0.18:
+            elif r < 0.19:
+                s, tg = gen_registry_template(ctx.rng, weak)
+            elif r < 0.23:
                 s, tg = gen_brute(ctx.rng, weak)
             else:
                 s, tg = gen_script(ctx.rng, weak)
